@@ -1298,7 +1298,18 @@ private:
 
         std::optional<std::filesystem::path> output_path;
         if (const auto out_it = fields.find("OUT"); out_it != fields.end()) {
-            output_path = std::filesystem::absolute(std::filesystem::path(out_it->second));
+            // absolute() refuses some paths (the empty one, for instance); that is the client's mistake, not a reason
+            // to let an exception take the accept thread down.
+            std::error_code path_error;
+            auto resolved = std::filesystem::absolute(std::filesystem::path(out_it->second), path_error);
+            if (path_error) {
+                auto error = make_error("ERR_FETCH_OUTPUT_INVALID",
+                                        "Invalid output path",
+                                        "Provide a non-empty OUT path");
+                respond_error(std::move(error), "output_invalid");
+                return;
+            }
+            output_path = std::move(resolved);
         }
 
         bool stream_to_client = false;
